@@ -52,7 +52,9 @@ def C10_1(ctx, facts):
     ctx.floor("join_next|Eyeball::Ok", len(eo), 1, "constructions of Eyeball::Ok")
     for (b, i, s) in eo:
         g1, w1 = j.guarded(b, lambda lab: lab.kind == "variant" and lab.variants == {"Some"})
-        g2, w2 = j.guarded(b, lambda lab: lab.kind == "variant" and lab.variants == {"Ok"} and any(isinstance(e, dict) and e.get("d") == "Some" for e in lab.place["p"]))
+        jp = {a["poll"].bb for a in awaits(j)}
+        g2, w2 = j.guarded(b, lambda lab: lab.kind == "variant" and lab.variants == {"Ok"} and (lab.adt or "").endswith("result::Result") and
+                           any(r.kind == "call" and r.site.bb in jp for r in j.roots({"l": lab.place["l"], "p": list(lab.place["p"])})))
         ctx.check(g1 and g2, "join_next|Ok-on-Some(Ok)", "Eyeball::Ok(x) is built exactly on the Some(Ok(x)) edge of tasks.next()", "Eyeball::Ok built outside Some(Ok(_))", j.where(b))
         rr = j.roots(s["r"]["ops"][0], through_calls=False)
         ctx.check(any(r.kind == "call" and norm(r.site.name).endswith("::poll") or (r.kind == "call" and "Next" in norm(r.site.name)) for r in rr) or any(r.kind == "call" for r in rr),
@@ -179,28 +181,24 @@ def C10_5(ctx, facts):
 
 
 def C10_6(ctx, facts):
-    f = facts.unit(facts.fn("client::conn::transport::tcp::TcpConnecting::connect::{closure#0}"))
+    f = facts.unit(facts.fn("client::conn::transport::tcp::TcpConnecting::connect::{closure#0}"), expand=True)
     ctx.touched(f)
-    me = [c for c in f.calls() if c.matches(r"Result.*::map_err$")]
-    ctx.floor("TcpConnecting::connect|map_err", len(me), 1, "map_err on the happy-eyeballs result")
-    done = False
-    for c in me:
-        ck = closure_arg_of(f, c, 1)
-        body = facts.fns.get(ck) if ck else None
-        if body is None:
-            continue
-        sw, reg = arms(body, "happy_eyeballs::HappyEyeballsError")
-        if "Error" not in reg:
-            continue
-        done = True
-        rets = assigns_to_return(body, reg["Error"])
-        ok = len(rets) == 1 and rets[0][0] == "stmt"
-        if ok:
-            rr = body.roots(rets[0][2]["r"]["o"], through_calls=False) if rets[0][2]["r"]["k"] == "use" else set()
-            ok = any(r.kind == "arg" and getattr(r, "index", None) == 2 for r in rr) and not any(r.kind == "call" for r in rr)
-        ctx.check(ok, "TcpConnecting::connect|error-identity", "HappyEyeballsError::Error(e) is mapped to e itself (the first failure observed)", "Error(e) is transformed", body.where())
-        ctx.check(set(reg) == {"Error", "Timeout", "NoProgress"}, "TcpConnecting::connect|all-outcomes", "every failure kind is mapped", "mapped kinds: %s" % sorted(reg), body.where())
-    ctx.check(done, "TcpConnecting::connect|mapper-found", "the error mapper was analysed", "error mapper closure not recognised")
+    # normal form (map_err closure / helper / inline match all look alike here): a match on the HappyEyeballsError
+    sw, reg = arms(f, "happy_eyeballs::HappyEyeballsError")
+    ctx.check(set(reg) == {"Error", "Timeout", "NoProgress"}, "TcpConnecting::connect|all-outcomes", "every failure kind of the happy-eyeballs run is mapped (%s)" % sorted(reg),
+              "mapped kinds: %s" % sorted(reg), f.where())
+    ctx.check("Error" in reg, "TcpConnecting::connect|mapper-found", "the error mapping was analysed", "error mapping not recognised")
+    if "Error" in reg:
+        calls = [c for c in f.calls() if c.bb in reg["Error"]]
+        payload = False
+        for b_ in reg["Error"]:
+            for st in f.stmts(b_):
+                if st["k"] == "assign" and st["r"]["k"] == "use":
+                    q = op_place(st["r"]["o"])
+                    if q is not None and any(isinstance(e, dict) and e.get("d") == "Error" for e in q["p"]):
+                        payload = True
+        ctx.check(payload and not calls, "TcpConnecting::connect|error-identity", "HappyEyeballsError::Error(e) is mapped to e itself (the first failure observed), untouched",
+                  "Error(e) is transformed (%s)" % [norm(c.name) for c in calls], f.where(sw) if sw is not None else f.where())
     fin = [a for a in awaits(f) if a["future"] is not None and a["future"].is_("happy_eyeballs::EyeballSet::finish")]
     ctx.floor("TcpConnecting::connect|finish", len(fin), 1, "await of attempts.finish()")
 
